@@ -197,7 +197,7 @@ func scanStrace(r *run, k *child) {
 				mustJSON(map[string]any{"kind": "strace", "line": line}), 1)
 		}
 	}
-	r.counters["strace_syscalls_inspected"] += lines
+	r.counters["strace_syscalls_inspected"] += lines // every system call between the markers (all are traced), of which only those above are violations
 	if !sawBegin || !sawEnd {
 		r.inconcl = append(r.inconcl, "strace log lacks the workload markers")
 	} else {
